@@ -339,6 +339,19 @@ func (t *c14Thread) execOp(o c14Op, co *coThread) {
 		} else {
 			t.end("RangeEnd", nil)
 		}
+	case "Extend":
+		// the element's owner stores a new deadline into the shared element (blockwise does so on
+		// every block of a transfer); one atomic store
+		t.begin()
+		var vu time.Time
+		if o.V.VU != 0 {
+			vu = r.base.Add(time.Duration(o.V.VU))
+		}
+		r.elems[o.V.ID].ValidUntil.Store(vu)
+		r.mu.Lock()
+		r.spec[o.V.ID] = o.V
+		r.mu.Unlock()
+		t.end(fmt.Sprintf("Extend %d %d %s", k, o.V.ID, coqZ(o.V.VU)), nil)
 	case "Sweep":
 		state := "next"
 		lastNext := -1
@@ -358,7 +371,10 @@ func (t *c14Thread) execOp(o c14Op, co *coThread) {
 						if lastNext >= 0 {
 							t.ops[lastNext] = fmt.Sprintf("SweepNext (Some %d) %s true", r.ekey[d], now)
 						}
-						t.end(fmt.Sprintf("SweepDel %d %s %s", r.ekey[d], coqVal(r.spec[d]), now), []int64{1})
+						r.mu.Lock()
+						cur := r.spec[d]
+						r.mu.Unlock()
+						t.end(fmt.Sprintf("SweepDel %d %s %s", r.ekey[d], coqVal(cur), now), []int64{1})
 					} else {
 						t.end("SweepDelFail", []int64{0})
 					}
@@ -570,7 +586,17 @@ func c14RunBarrier(cs *c14Case) (coq string, piled bool) {
 // ---- generators ----
 
 type c14Gen struct {
-	next int
+	next  int
+	inits map[int]int // key -> id of the element the initial contents hold under it
+}
+
+// extend: the owner of the element initially under k stores a new deadline into it; where the initial
+// contents have nothing under k the call is a plain Load
+func (g *c14Gen) extend(k int, vu int64) c14Op {
+	if id, ok := g.inits[k]; ok {
+		return c14Op{Kind: "Extend", K: k, V: c14Elem{ID: id, VU: vu}}
+	}
+	return c14Op{Kind: "Load", K: k}
 }
 
 func (g *c14Gen) id() int             { g.next++; return g.next }
@@ -608,9 +634,21 @@ var c14Makers = []struct {
 	{"Sweep-T", func(g *c14Gen, k int) c14Op { return c14Op{Kind: "Sweep", Now: c14T} }},
 	{"Sweep-T+1", func(g *c14Gen, k int) c14Op { return c14Op{Kind: "Sweep", Now: c14T + 1} }},
 	{"Sweep-late", func(g *c14Gen, k int) c14Op { return c14Op{Kind: "Sweep", Now: 2 * c14T} }},
+	{"Extend-later", func(g *c14Gen, k int) c14Op { return g.extend(k, 3*c14T) }},
+	{"Extend-never", func(g *c14Gen, k int) c14Op { return g.extend(k, 0) }},
+	{"Extend-past", func(g *c14Gen, k int) c14Op { return g.extend(k, -2*c14T) }},
 }
 
 func c14Inits(g *c14Gen, which int) []c14Init {
+	in := c14InitsRaw(g, which)
+	g.inits = map[int]int{}
+	for _, x := range in {
+		g.inits[x.K] = x.E.ID
+	}
+	return in
+}
+
+func c14InitsRaw(g *c14Gen, which int) []c14Init {
 	switch which {
 	case 0:
 		return nil
@@ -628,6 +666,9 @@ func c14Inits(g *c14Gen, which int) []c14Init {
 func c14Mutates(kind string) bool {
 	switch kind {
 	case "Load", "CopyData", "Length", "Range2", "LoadWF", "Range", "CLoad":
+		return false
+	case "Extend":
+		// not a method of the map: it is not amplified behind the barrier on its own
 		return false
 	}
 	return true
